@@ -144,3 +144,17 @@ contract(_DU + "construct_faces", props=["C18"],
              "assert forall(0, max_edges, lambda j: _face[j] == FILL or exists(0, n_edges[i], lambda k: _face[j] == node_face_connectivity[i, k]))",
          ]},
          raises=[("Exception", "False", "only_if")])
+
+
+# ---- construct_dual (C18 dataflow): the dual faces are built by construct_faces from THIS grid's face centres (dual nodes), node
+# positions and node_face_connectivity, with the valence of node i = the number of real (non-padding) entries of row i
+_NFC = f"attr(summary('{_G}node_face_connectivity', grid), 'values')"
+contract(_DU + "construct_dual", props=["C18"],
+         params={"grid": "obj('Grid')"}, returns="opaque",
+         ensures=[f"same(result, summary('{_DU}construct_faces', summary('{_G}n_node', grid), "
+                  f"lib('numpy.sum', {_NFC} != FILL, axis=1), "
+                  + ", ".join(f"attr(summary('{_G}face_{c}', grid), 'values')" for c in "xyz") + f", {_NFC}, "
+                  + ", ".join(f"attr(summary('{_G}node_{c}', grid), 'values')" for c in "xyz") + "))"],
+         options={"abstract": True, "summaries": [_DU + "construct_faces"] + [_G + a for a in
+                  ("n_node", "node_face_connectivity", "face_x", "face_y", "face_z", "node_x", "node_y", "node_z")]},
+         raises=[("Exception", "False", "only_if")])
